@@ -29,14 +29,12 @@ const (
 	cOpCount
 )
 
-
-
 type concLog struct {
-	signalled int
-	ctxs      []context.Context
-	ctxLive   []bool
-	cleanReg  int
-	cleanRun  []int
+	signalled  int
+	ctxs       []context.Context
+	ctxLive    []bool
+	cleanReg   int
+	cleanRun   []int
 	failedSeen []bool // Failed() results observed after this goroutine itself signalled a failure
 }
 
@@ -168,7 +166,6 @@ func concScenario(progs [][]uint8, logMode int, joined bool, mainOp uint8) {
 }
 
 var c14Alphabet = []uint8{cHelperName, cLogf, cErrorf, cFail, cFailed, cContext, cCleanup}
-
 
 // H_C14_pairs: two goroutines started by the property, one call each (unordered pair of
 // operations: the goroutines are symmetric), joined by the body or only by a cleanup.
